@@ -86,6 +86,15 @@ theorem len_compute {p : Period} (h1 : p.start ≤ p.stop) (h2 : p.stop < 2 ^ 62
   rw [e1, e2]
   omega
 
+/-- the uint64 length without wrap: any accepted period (start ≤ end ≤ 2^64−1, not [0, 2^64−1]) -/
+theorem len_nowrap {p : Period} (h1 : p.start ≤ p.stop) (h2 : p.stop < 2 ^ 64) (h3 : p.stop - p.start + 1 < 2 ^ 64) :
+    p.len = p.stop - p.start + 1 := by
+  unfold Period.len u64
+  have e1 : p.stop % 2 ^ 64 = p.stop := Nat.mod_eq_of_lt h2
+  have e2 : p.start % 2 ^ 64 = p.start := Nat.mod_eq_of_lt (by omega)
+  rw [e1, e2]
+  omega
+
 theorem share_le_alloc (p : Period) : share p ≤ p.alloc := Nat.div_le_self _ _
 
 theorem calc_compute {p : Period} {h : Nat} (hok : CurOK p h) : calcBlockDistribution p = .ok (share p) := by
